@@ -1,33 +1,306 @@
-import LeptosModel.Proofs.OwnerTree
+import LeptosModel.Proofs.OwnerCtx
 /-!
 # C08 — owner disposal releases exactly what the scope created, exactly once
 
-Property theorems over `Model/Owner`.  Histories are arbitrary lists of the harness's op lines
-(`runOps`), passes are arbitrary runs of the cleanup machine (`runPass`).
+Property theorems over `Model/Owner` (the model's header maps every definition to the Rust code).
+
+*Quantifiers.*  `Reachable st` : `st` is the property-relevant state (`Core`) after **any** sequence
+of primitive steps from the empty state — in particular after any history of the harness's op
+lines (`reachable_runOps`) and at every intermediate point of such a history (inside effect and memo
+re-runs).  `cleanupOwner st o` is `Owner::cleanup` = the cleanup phase of `Owner::with_cleanup`
+(every effect / memo re-run); `dropOwner st o` is `Drop for OwnerInner`.  Both are complete runs of
+the cleanup machine (`C08_pass_terminates`).
+
+*Scopes.*  `Below st o d` : `d` is `o` or reachable from `o` through `children` lists along owners that
+can still be upgraded — what the recursion of `cleanup` visits.  `Touch st o x` : the same closure
+without the liveness condition, plus the owners held by memo values stored in nodes of the scope —
+everything a pass may write to.  `Desc`/`SD` : (strict) descendant in the `children` forest.
+A child owner whose handle is retained is *detached* by its parent's `cleanup` (the `children` list
+is taken): what is created under it later belongs to its own scope (`C08_detached_child_example`).
+
+*Exempt frames.*  When a node holding a memo is removed, the `ArcMemo`'s `Owner` is dropped inside
+the pass (`late = true` frames).  That owner was a child of the scope and has been cleaned before,
+so nothing is left to run; the ordering theorem does not constrain such entries.
+
+*Findings.*  `cleanup` leaves `contexts` in place (`C08_context_survives_cleanup`): the full
+statement `C08_context_fresh_full` is refuted, `C08_context_fresh_partial` is the strongest true
+statement, its hypothesis is the decidable class `ctx-survives-cleanup` of the check.
 -/
 namespace Leptos.Owner
 
+/-- reachable from the empty state by primitive steps -/
+def Reachable (st : Core) : Prop := CoreReach {} st
+
+/-- every state of every history of op lines is reachable -/
+theorem reachable_runOps (ops : List Op) : Reachable (runOps {} ops).toCore := reach_runOps ops
+
+theorem Reachable.treeWF {st : Core} (h : Reachable st) : TreeWF st := TreeWF.reach h TreeWF.init
+theorem Reachable.cidInv {st : Core} (h : Reachable st) : CidInv st [] :=
+  CoreReach.inv (fun _ _ hp => CidInv.prim hp) h CidInv.init
+theorem Reachable.nodesOK {st : Core} (h : Reachable st) : NodesOK st := NodesOK.reach h NodesOK.init
+theorem Reachable.arenaWF {st : Core} (h : Reachable st) : st.arena.WF := arenaWF_reach h Arena.WF_empty
+theorem Reachable.owned {st : Core} (h : Reachable st) : Owned st [] := Owned.reach h Owned.init
+theorem Reachable.cleanup {st : Core} (h : Reachable st) (o : Nat) : Reachable (cleanupOwner st o) :=
+  CoreReach.tail h (CorePrim.pass _ _ rfl)
+theorem Reachable.drop {st : Core} (h : Reachable st) (o : Nat) : Reachable (dropOwner st o) :=
+  CoreReach.tail h (CorePrim.pass _ _ rfl)
+
+/-! ## termination -/
+
 /-- the cleanup machine always runs to completion with the fuel `runPass` gives it
-(so `cleanupOwner`, `dropOwner`, `disposeKey` are the complete passes, never a truncated one) -/
+(so `cleanupOwner`, `dropOwner`, `disposeKey` are complete passes, never truncated ones) -/
 theorem C08_pass_terminates (st : Core) (fs : List Frame) :
     (runFrames (potential st fs) st fs).2 = [] :=
   runFrames_complete _ st fs (Nat.le_refl _)
 
-/-- **at most once**: along every history no registered cleanup runs twice
-(`cid` is the ghost serial number a cleanup gets when it is registered) -/
+/-! ## cleanups run exactly once -/
+
+/-- **at most once, globally**: along every history no registered cleanup runs twice
+(`cid` = the ghost serial number a cleanup gets when it is registered) -/
 theorem C08_cleanup_never_twice (ops : List Op) (cid : Nat) :
     logCount cid (runOps {} ops).log ≤ 1 := by
-  have h : CidInv (runOps {} ops).toCore [] :=
-    CoreReach.inv (fun _ _ hp => CidInv.prim hp) (reach_runOps ops) CidInv.init
-  have := (h cid).1
+  have := ((reachable_runOps ops).cidInv cid).1
   unfold occ at this
   omega
 
-/-- **stale handles**: a key that was handed out and no longer resolves never resolves again,
-whatever happens later (slot versions only move forward) -/
-theorem C08_stale_key_never_resolves (st : St) (k : Key) (hi : Issued st.arena k)
-    (hn : st.arena.get k = none) (ops : List Op) : (runOps st ops).arena.get k = none := by
-  have hle : ArenaLe st.arena (runOps st ops).arena := ArenaLe.reach (sr_runOps (SR.refl st) ops)
-  exact (hle.dead k (dead_of_issued_get_none hi hn)).get_none
+theorem logCount_pos_of_logHas {cid : Nat} {l : List Ev} (h : logHas cid l) : 1 ≤ logCount cid l := by
+  obtain ⟨tag, ow, late, hm⟩ := h
+  unfold logCount
+  apply List.count_pos_iff.mpr
+  exact List.mem_filterMap.mpr ⟨_, hm, rfl⟩
+
+theorem sumW_ge_of_get {w : OwnerRec → Nat} {l : List OwnerRec} {o : Nat} {r : OwnerRec}
+    (h : l[o]? = some r) : w r ≤ sumW w l := by
+  have := sumW_set (w := w) h r
+  have h2 : l.set o r = l := by
+    apply List.ext_getElem?
+    intro i
+    by_cases hi : o = i
+    · subst hi; rw [List.getElem?_set_self (lt_of_getElem?_some h)]; exact h.symm
+    · rw [List.getElem?_set_ne hi]
+  induction l generalizing o with
+  | nil => simp at h
+  | cons a l ih =>
+    cases o with
+    | zero => simp at h; subst h; simp [sumW]
+    | succ o =>
+      simp at h
+      have h3 : l.set o r = l := by
+        apply List.ext_getElem?
+        intro i
+        by_cases hi : o = i
+        · subst hi; rw [List.getElem?_set_self (lt_of_getElem?_some h)]; exact h.symm
+        · rw [List.getElem?_set_ne hi]
+      have := ih h (sumW_set (w := w) h r) h3
+      simp [sumW] at this ⊢; omega
+
+theorem pending_not_logged {st : Core} (hc : CidInv st []) {d : Nat} {c : Cleanup}
+    (hm : c ∈ cleanupsOf st d) : logCount c.cid st.log = 0 := by
+  rw [cleanupsOf_eq] at hm
+  obtain ⟨r, hr, hcr⟩ := field_mem_record hm
+  have h1 : 1 ≤ recCount c.cid r := by
+    unfold recCount
+    exact List.count_pos_iff.mpr (List.mem_map.mpr ⟨c, hcr, rfl⟩)
+  have h2 := sumW_ge_of_get (w := recCount c.cid) hr
+  have := (hc c.cid).1
+  unfold occ at this
+  omega
+
+/-- **exactly once**: when an owner is cleaned up (its effect or memo re-runs, or `cleanup` is called),
+every cleanup registered under it or below it had not run before and has run exactly once afterwards -/
+theorem C08_cleanups_exactly_once {st : Core} (hr : Reachable st) {o d : Nat} {c : Cleanup}
+    (ha : st.aliveB o = true) (hd : Below st o d) (hc : c ∈ cleanupsOf st d) :
+    logCount c.cid st.log = 0 ∧ logCount c.cid (cleanupOwner st o).log = 1 := by
+  refine ⟨pending_not_logged hr.cidInv hc, ?_⟩
+  have h1 := logCount_pos_of_logHas (cleanupOwner_runs hr.treeWF ha hd hc)
+  have h2 := ((hr.cleanup o).cidInv c.cid).1
+  unfold occ at h2
+  omega
+
+/-- the same when the scope is dropped (last handle of the owner gone; effect task ended) -/
+theorem C08_cleanups_exactly_once_drop {st : Core} (hr : Reachable st) {o d : Nat} {c : Cleanup}
+    (hd : Below st o d) (hc : c ∈ cleanupsOf st d) :
+    logCount c.cid st.log = 0 ∧ logCount c.cid (dropOwner st o).log = 1 := by
+  refine ⟨pending_not_logged hr.cidInv hc, ?_⟩
+  have h1 := logCount_pos_of_logHas (dropOwner_runs hr.treeWF hd hc)
+  have h2 := ((hr.drop o).cidInv c.cid).1
+  unfold occ at h2
+  omega
+
+/-- **and no other cleanup appears**: every cleanup a pass runs was registered in the scope, or was
+registered during the pass itself (by a cleanup that registers work while it runs) -/
+theorem C08_no_other_cleanup {st : Core} (hr : Reachable st) (o : Nat) {tag cid ow : Nat} {late : Bool}
+    (h : Ev.c tag cid ow late ∈ (cleanupOwner st o).log) :
+    Ev.c tag cid ow late ∈ st.log ∨ (∃ x c, Touch st o x ∧ c ∈ cleanupsOf st x ∧ c.cid = cid) ∨
+      st.nextCid ≤ cid :=
+  (cleanupOwner_frame hr.arenaWF hr.nodesOK o).log tag cid ow late h
+
+/-! ## descendants before ancestors -/
+
+/-- **descendants first**: in the cleanups a `cleanup` pass logs, an owner's cleanup never comes
+before a cleanup of one of its strict descendants (`ows` = owners of the logged cleanups, in order) -/
+theorem C08_descendants_first {st : Core} (hr : Reachable st) (o : Nat) :
+    ∃ suf, (cleanupOwner st o).log = st.log ++ suf ∧ (ows suf).Pairwise (fun a b => ¬ SD st a b) :=
+  cleanupOwner_ordered hr.treeWF o
+
+theorem C08_descendants_first_drop {st : Core} (hr : Reachable st) (o : Nat) :
+    ∃ suf, (dropOwner st o).log = st.log ++ suf ∧ (ows suf).Pairwise (fun a b => ¬ SD st a b) :=
+  dropOwner_ordered hr.treeWF o
+
+/-! ## handles -/
+
+/-- **handles are invalidated**: every arena entry registered under the owner or below it is dead
+after the pass (`KeyDead`: the slot has moved past the key) … -/
+theorem C08_handles_invalidated {st : Core} (hr : Reachable st) {o d : Nat} {k : Key}
+    (ha : st.aliveB o = true) (hd : Below st o d) (hk : k ∈ nodesOf st d) :
+    KeyDead (cleanupOwner st o).arena k :=
+  cleanupOwner_kills hr.treeWF ha hd hk (hr.nodesOK d k hk)
+
+theorem C08_handles_invalidated_drop {st : Core} (hr : Reachable st) {o d : Nat} {k : Key}
+    (hd : Below st o d) (hk : k ∈ nodesOf st d) : KeyDead (dropOwner st o).arena k :=
+  dropOwner_kills hr.treeWF hd hk (hr.nodesOK d k hk)
+
+/-- … and a dead key never resolves again — not to its old value and not to any other value —
+in any later history (slot versions only move forward) -/
+theorem C08_stale_key_never_resolves (st : St) (k : Key) (hd : KeyDead st.arena k) (ops : List Op) :
+    (runOps st ops).arena.get k = none :=
+  ((ArenaLe.reach (sr_runOps (SR.refl st) ops)).dead k hd).get_none
+
+/-! ## frame -/
+
+/-- **nothing outside the scope is affected** (owners): a `cleanup` pass leaves the record of every
+owner outside the scope untouched — except the ambient owner, on which cleanups that register work
+while they run put that work -/
+theorem C08_frame_owners {st : Core} (hr : Reachable st) (o x : Nat) (hx : ¬ Touch st o x)
+    (hamb : currentOwner st ≠ some x) : (cleanupOwner st o).owners[x]? = st.owners[x]? :=
+  (cleanupOwner_frame hr.arenaWF hr.nodesOK o).owners x hx hamb
+
+/-- **nothing outside the scope is affected** (arena): an entry that is not in a node list of the
+scope resolves to the same value after the pass -/
+theorem C08_frame_items {st : Core} (hr : Reachable st) (o : Nat) (k : Key) (w : Val)
+    (hk : st.arena.get k = some w) (hout : ∀ x, Touch st o x → k ∉ nodesOf st x) :
+    (cleanupOwner st o).arena.get k = some w :=
+  (cleanupOwner_frame hr.arenaWF hr.nodesOK o).keys k w hk hout
+
+theorem C08_frame_owners_drop {st : Core} (hr : Reachable st) (o x : Nat) (hx : ¬ Touch st o x)
+    (hamb : currentOwner st ≠ some x) : (dropOwner st o).owners[x]? = st.owners[x]? :=
+  (dropOwner_frame hr.arenaWF hr.nodesOK o).owners x hx hamb
+
+theorem C08_frame_items_drop {st : Core} (hr : Reachable st) (o : Nat) (k : Key) (w : Val)
+    (hk : st.arena.get k = some w) (hout : ∀ x, Touch st o x → k ∉ nodesOf st x) :
+    (dropOwner st o).arena.get k = some w :=
+  (dropOwner_frame hr.arenaWF hr.nodesOK o).keys k w hk hout
+
+/-! ## contexts -/
+
+/-- **nearest provider**: `use_context` under the current owner `o` returns the entry of the first
+owner on the chain `o, parent o, parent (parent o), …` (cut at the first owner that can no longer
+be upgraded) that has an entry of that type -/
+theorem C08_context_nearest {st : Core} (hr : Reachable st) (ty : Nat) :
+    lookupCur st ty = (currentOwner st).bind fun o =>
+      (chain (o + 1) st o).findSome? fun a => (ctxAt st a ty).map fun e => (a, e) := by
+  unfold lookupCur
+  cases hc : currentOwner st with
+  | none => rfl
+  | some o =>
+    simp only [Option.bind_some]
+    have hlt := currentOwner_lt hc
+    have : st.owners.length + 1 = (o + 1) + (st.owners.length - o) := by omega
+    rw [this, lookup_fuel hr.treeWF ty (o + 1) o (Nat.lt_succ_self _), lookup_eq_chain]
+
+/-- a lookup resolves to an entry that its owner's last `cleanup` should have released -/
+def staleLookup (st : Core) (ty : Nat) : Bool :=
+  match lookupCur st ty with
+  | some (_, e) => e.stale
+  | none => false
+
+/-- full statement: no lookup ever resolves to a context provided before its owner's last cleanup -/
+def C08_context_fresh_full : Prop := ∀ ops : List Op, (runOps {} ops).staleHit = false
+
+/-- F-C08-1: `x o; in 0 x p0.5; cleanup 0; in 0 x u0` reads 5 -/
+theorem C08_context_survives_cleanup :
+    (runOps {} [.act [] (.x .newOwner), .act [0] (.x (.provide 0 5)), .act [] (.cleanup 0),
+      .act [0] (.x (.use 0))]).log = [Ev.u 0 (some 5)] ∧
+    (runOps {} [.act [] (.x .newOwner), .act [0] (.x (.provide 0 5)), .act [] (.cleanup 0),
+      .act [0] (.x (.use 0))]).staleHit = true := by
+  decide
+
+theorem C08_context_fresh_full_false : ¬ C08_context_fresh_full := by
+  intro h
+  have := h [.act [] (.x .newOwner), .act [0] (.x (.provide 0 5)), .act [] (.cleanup 0), .act [0] (.x (.use 0))]
+  revert this; decide
+
+/-- partial: a lookup that does not resolve to a stale entry (the negation is the decidable class
+`ctx-survives-cleanup`) never raises the flag -/
+theorem C08_context_fresh_partial (st : Core) (ty : Nat) (h : staleLookup st ty = false) :
+    (useCtx st ty).staleHit = st.staleHit := by
+  unfold staleLookup at h
+  unfold useCtx
+  cases hl : lookupCur st ty with
+  | none => rfl
+  | some p =>
+    obtain ⟨o, e⟩ := p
+    rw [hl] at h
+    simp only at h ⊢
+    rw [h]; simp
+
+/-! ## no leak -/
+
+/-- **no leak**: if every arena entry was created under some owner (`unowned = 0`) and every owner
+is gone, no arena entry remains -/
+theorem C08_no_leak {st : Core} (hr : Reachable st) (hu : st.unowned = 0)
+    (hdead : ∀ o, st.aliveB o = false) : st.arena.len = 0 := by
+  apply arena_len_zero
+  intro k
+  cases hg : st.arena.get k with
+  | none => rfl
+  | some v =>
+    rcases hr.owned hu k v hg with ⟨o, ho, _⟩ | ⟨_, hm⟩
+    · rw [hdead o] at ho; cases ho
+    · cases hm
+
+/-- full statement without the hypothesis on how entries were created -/
+def C08_no_leak_full : Prop :=
+  ∀ ops : List Op, (∀ o, (runOps {} ops).aliveB o = false) → (runOps {} ops).arena.len = 0
+
+/-- `x i5; end`: a stored value created while no owner is current is never released -/
+theorem C08_unowned_item_leaks :
+    (runOps {} [.act [] (.x (.item 5)), .«end»]).arena.len = 1 ∧
+    (runOps {} [.act [] (.x (.item 5)), .«end»]).unowned = 1 := by decide
+
+theorem C08_no_leak_full_false : ¬ C08_no_leak_full := by
+  intro h
+  have := h [.act [] (.x (.item 5)), .«end»] (by
+    intro o
+    have : (runOps {} [.act [] (.x (.item 5)), .«end»]).owners = [] := by decide
+    simp [Core.aliveB, this])
+  revert this; decide
+
+/-! ## non-vacuity, examples -/
+
+/-- a history after which an alive owner has a cleanup and a node below it -/
+def exOps : List Op :=
+  [.act [] (.x .newOwner), .child 0, .act [1] (.x (.cleanup 7)), .act [1] (.x (.item 9)), .act [0] (.x (.cleanup 3))]
+
+example : (runOps {} exOps).aliveB 0 = true := by decide
+example : Below (runOps {} exOps).toCore 0 1 :=
+  Below.step (by decide) (by decide) (Below.refl _)
+example : (⟨0, 7, false⟩ : Cleanup) ∈ cleanupsOf (runOps {} exOps).toCore 1 := by decide
+example : (⟨0, 0⟩ : Key) ∈ nodesOf (runOps {} exOps).toCore 1 := by decide
+/-- the pass runs the child's cleanup (tag 7) before the parent's (tag 3) and removes the item -/
+example : ((runOps {} (exOps ++ [.act [] (.cleanup 0)])).log.map fun e => match e with | .c t _ _ _ => t | _ => 0) = [7, 3] := by
+  decide
+example : (runOps {} (exOps ++ [.act [] (.cleanup 0)])).arena.get ⟨0, 0⟩ = none := by decide
+example : staleLookup (runOps {} exOps).toCore 0 = false := by decide
+example : (runOps {} [.act [] (.x .newOwner), .act [0] (.x (.item 5)), .«end»]).unowned = 0 ∧
+    (runOps {} [.act [] (.x .newOwner), .act [0] (.x (.item 5)), .«end»]).arena.len = 0 := by decide
+
+/-- a retained child owner is detached by its parent's `cleanup`: what is created under it later is
+released when the child itself is cleaned or dropped, not by the parent's next `cleanup` -/
+theorem C08_detached_child_example :
+    (runOps {} [.act [] (.x .newOwner), .child 0, .act [] (.cleanup 0), .act [1] (.x (.item 3)),
+      .act [] (.cleanup 0)]).arena.get ⟨0, 0⟩ = some (Val.num 3) ∧
+    (runOps {} [.act [] (.x .newOwner), .child 0, .act [] (.cleanup 0), .act [1] (.x (.item 3)),
+      .act [] (.cleanup 0), .drop 1]).arena.get ⟨0, 0⟩ = none := by decide
 
 end Leptos.Owner
